@@ -726,7 +726,7 @@ Proof.
   assert (wire_hdr bytes = h /\ wire_setid bytes = tid /\ rs0 = rs /\ tm' = tm) as (<- & <- & -> & ->)
     by (repeat split; congruence).
   split; [|reflexivity].
-  unfold spec_packet_data. rewrite (hdr_ok_of bytes v Sh Hv V), T, L. cbn [negb andb].
+  unfold spec_packet_data, spec_packet_data_with. rewrite (hdr_ok_of bytes v Sh Hv V), T, L. cbn [negb andb].
   unfold wire_body. now rewrite (decode_data_body_spec _ _ _ _ D).
 Qed.
 
@@ -906,7 +906,7 @@ Lemma spec_packet_data_complete m reg tm bytes h tid rs :
   spec_packet_data m tm bytes = Some (h, tid, rs) ->
   decode_packet m reg tm bytes = (Ok (DataMsg h tid rs), tm).
 Proof.
-  unfold spec_packet_data.
+  unfold spec_packet_data, spec_packet_data_with.
   destruct (hdr_ok bytes) eqn:H; [|discriminate]. cbn [andb].
   destruct (N.eqb (wire_setid bytes) c_entities_TemplateSetID) eqn:T; [discriminate|]. cbn [negb].
   destruct (tm_lookup tm (wire_obs bytes) (wire_setid bytes)) as [tpl|] eqn:L; [|discriminate].
@@ -932,12 +932,12 @@ Proof.
   intros S. destruct (decode_packet_total m reg tm bytes S) as [P F].
   destruct (decode_packet m reg tm bytes) as [o tm'] eqn:D. cbn [fst] in *.
   destruct o as [[h tid es|h tid rs]|k| |]; try congruence.
-  - destruct (decode_packet_template _ _ _ _ _ _ _ _ D) as [Sp _]. unfold spec_packet. now rewrite Sp.
-  - destruct (decode_packet_data _ _ _ _ _ _ _ _ D) as [Sp _]. unfold spec_packet.
+  - destruct (decode_packet_template _ _ _ _ _ _ _ _ D) as [Sp _]. unfold spec_packet, spec_packet_with. now rewrite Sp.
+  - destruct (decode_packet_data _ _ _ _ _ _ _ _ D) as [Sp _]. unfold spec_packet, spec_packet_with. fold (spec_packet_data m tm bytes).
     destruct (spec_template m reg bytes) as [[[h' tid'] es']|] eqn:St.
     + rewrite (spec_template_complete m reg tm bytes _ _ _ St) in D. discriminate.
     + now rewrite Sp.
-  - unfold spec_packet.
+  - unfold spec_packet, spec_packet_with. fold (spec_packet_data m tm bytes).
     destruct (spec_template m reg bytes) as [[[h' tid'] es']|] eqn:St.
     + rewrite (spec_template_complete m reg tm bytes _ _ _ St) in D. discriminate.
     + destruct (spec_packet_data m tm bytes) as [[[h' tid'] rs']|] eqn:Sd; [|reflexivity].
